@@ -95,3 +95,80 @@ Theorem C05_regular_verdict_on_certified_matrices : forall rec cfg m n M rc v tr
   rc = 0 /\ TuModel.regular_bf m n M = true /\ (v = 2 -> TuModel.cfg_stopflags cfg = true) /\ (v <> 2 -> v = 1).
 Proof. exact RegCertProofs.judge_regular_cert_sound. Qed.
 Print Assumptions C05_regular_verdict_on_certified_matrices.
+
+(* ---------- the judge accepts EXACTLY the records that satisfy its specification: besides soundness (above) also completeness,
+   i.e. a record of a correct answer is never rejected (JudgeComplete2.v) ---------- *)
+From Cmr Require JudgeComplete2.
+Theorem C05_judge_graphic_accepts_exactly_the_specification :
+    forall (rec : list Z) (tr : bool) (m0 n0 : nat) (M0 : mat) (rc v : Z)
+    (cert : option (GraphModel.graph * list nat * list nat)) (w : GraphModel.witness) 
+    (rest : list Z),
+    GraphProofs.graphic_input rec = Some (tr, (m0, n0, M0), rc, v, cert, w, rest) ->
+    GraphModel.judge_graphic rec = 0%Z <-> JudgeComplete2.graphic_spec tr m0 n0 M0 rc v cert w.
+Proof. exact JudgeComplete2.judge_graphic_iff. Qed.
+Print Assumptions C05_judge_graphic_accepts_exactly_the_specification.
+
+(* ---------- the certificate checker is EQUIVALENT to the specification (GraphComplete.v): besides soundness also completeness -
+   every graph / forest / coforest that represents the matrix by the Prop-level definition is accepted (leaf stripping succeeds
+   on every forest, the greedy walk finds every simple path), so code 93 is never raised on a correct certificate ---------- *)
+From Cmr Require GraphComplete GraphicClosure RelModel.
+Theorem C05_certificate_checker_is_the_specification :
+    forall (m n : nat) (M : mat) (G : GraphModel.graph) (forest coforest : list nat),
+    is_binary M = true ->
+    GraphModel.check_graph_cert m n M G forest coforest = true <->
+    (exists T C : list GraphModel.edge,
+    GraphModel.graph_ok G = true /\
+    GraphModel.lookup_all (GraphModel.g_edges G) forest = Some T /\
+    length T = m /\
+    GraphModel.lookup_all (GraphModel.g_edges G) coforest = Some C /\
+    length C = n /\
+    NoDup (forest ++ coforest) /\
+    (forall e : GraphModel.edge,
+    In e (GraphModel.g_edges G) -> In (GraphModel.e_id e) (forest ++ coforest)) /\
+    ~ GraphProofs.has_cycle T /\ GraphProofs.fund_cycle_spec m n M T C).
+Proof. exact GraphComplete.check_graph_cert_iff. Qed.
+Print Assumptions C05_certificate_checker_is_the_specification.
+Theorem C05_acyclicity_test_is_exact :
+    forall es : list GraphModel.edge,
+    NoDup (map GraphModel.e_id es) -> GraphModel.acyclic es = true <-> ~ GraphProofs.has_cycle es.
+Proof. exact GraphComplete.acyclic_iff. Qed.
+Print Assumptions C05_acyclicity_test_is_exact.
+Theorem C05_path_test_is_exact :
+    forall (S : list GraphModel.edge) (u v : nat) (p : list (GraphModel.edge * bool)),
+    GraphModel.path_of S u v = Some p <->
+    GraphProofs.simple_path S u v p /\ Permutation.Permutation (map fst p) S.
+Proof. exact GraphComplete.path_of_iff. Qed.
+Print Assumptions C05_path_test_is_exact.
+
+(* ---------- the class the certificates define is closed under the operations of C10 (GraphicClosure.v): GraphicP m n M = M is 0/1 and
+   some forest T and non-forest edges C satisfy the fundamental-cycle specification ---------- *)
+Theorem C05_certified_matrices_are_graphic :
+    forall (m n : nat) (M : mat) (G : GraphModel.graph) (f c : list nat),
+    GraphModel.check_graph_cert m n M G f c = true -> is_binary M = true -> GraphicClosure.GraphicP m n M.
+Proof. exact GraphicClosure.cert_GraphicP. Qed.
+Print Assumptions C05_certified_matrices_are_graphic.
+Theorem C05_graphic_submatrix :
+    forall (m n : nat) (M : mat) (rs cs : list nat),
+    wf_mat m n M = true ->
+    strictly_increasing rs = true ->
+    strictly_increasing cs = true ->
+    all_lt m rs = true ->
+    all_lt n cs = true ->
+    GraphicClosure.GraphicP m n M -> GraphicClosure.GraphicP (length rs) (length cs) (submat M rs cs).
+Proof. exact GraphicClosure.GraphicP_submat. Qed.
+Print Assumptions C05_graphic_submatrix.
+Theorem C05_graphic_contract_tree_edge :
+    forall (m n : nat) (M : mat) (k : nat),
+    wf_mat m n M = true ->
+    (k < m)%nat ->
+    GraphicClosure.GraphicP m n M ->
+    GraphicClosure.GraphicP (m - 1) n (submat M (RelModel.keep_line m k) (iota 0 n)).
+Proof. exact GraphicClosure.GraphicP_delete_row. Qed.
+Print Assumptions C05_graphic_contract_tree_edge.
+Theorem C05_graphic_select_columns :
+    forall (m n : nat) (M : mat) (cs : list nat),
+    wf_mat m n M = true ->
+    all_lt n cs = true ->
+    GraphicClosure.GraphicP m n M -> GraphicClosure.GraphicP m (length cs) (submat M (iota 0 m) cs).
+Proof. exact GraphicClosure.GraphicP_cols. Qed.
+Print Assumptions C05_graphic_select_columns.
